@@ -12,9 +12,10 @@ META = dict(
     bounds="mappings of 0..3 keys chosen by symbolic selectors from a per-class vocabulary (python names, every alias / in_name / "
            "renamed form in every style, an alias of another field, foreign keys) with symbolic int values; sequences of symbolic "
            "length 0..max+1 and symbolic carrier kind (list, tuple, str, bytes, bytearray, dict)",
-    configs="8 naming/layout configurations: plain; aliases + in_names + rename + out_name; class rename='camel' with aliases; "
+    configs="13 naming/layout configurations: plain; aliases + in_names + rename + out_name; class rename='camel' with aliases; "
             "in_rename=(snake,kebab)/out_rename=kebab; allow_extra + exclude; tuple layout with init=False and keyword-only fields; "
-            "both layouts with tuple output and exclude; struct-only",
+            "both layouts with tuple output and exclude; struct-only; inherited keyword-only fields before subclass positional ones (tuple layout); differing "
+            "input/output styles with aliases; output-only style; a subclass of a generic specialisation with its own style and aliases",
     stubs=[],
     outside=["configurations are enumerated (8), values are ints (value kinds are C01/C02's subject)"],
     assumptions=["oracle: decision table of the property + name derivation rules of pane/field.py docstrings, hand-written per class (REF)"],
